@@ -501,8 +501,10 @@ pub fn launch(
         s.argv = argv.to_vec();
         s.out.fault = out_fault.clone();
         s.err.fault = err_fault.clone();
+        s.bells = true;
     });
     let r = catch_unwind(AssertUnwindSafe(move || parser.run()));
+    world::with(|s| s.bells = false);
     let (status, body, panic) = match r {
         Ok(v) => (BODY_STATUS, Some(v), None),
         Err(p) => match classify(p) {
@@ -568,6 +570,7 @@ fn fault_to_j(f: &StreamFault) -> J {
     match f {
         StreamFault::None => J::Null,
         StreamFault::Closed => J::s("closed"),
+        StreamFault::Tty => J::s("tty"),
         StreamFault::ErrAt { at, errno } => {
             J::obj(vec![("err_at", J::Int(*at as i64)), ("errno", J::s(*errno))])
         }
@@ -577,6 +580,7 @@ fn fault_from(j: Option<&J>) -> Result<StreamFault, String> {
     match j {
         None | Some(J::Null) => Ok(StreamFault::None),
         Some(J::Str(s)) if s == "closed" => Ok(StreamFault::Closed),
+        Some(J::Str(s)) if s == "tty" => Ok(StreamFault::Tty),
         Some(j) => Ok(StreamFault::ErrAt {
             at: j.req("err_at")?.as_i64()? as usize,
             errno: crate::shape::intern(j.req("errno")?.as_str()?),
